@@ -45,3 +45,43 @@ PLAN["C15"] = dict(
     quick=dict(enum={"rel": 8, "dbg": 4}, proptest={"rel": (8, 30000), "dbg": (4, 10000)}),
     thorough=dict(enum={"rel": 16, "dbg": 8}, proptest={"rel": (16, 400000), "dbg": (8, 100000)}),
 )
+
+PLAN["C06"] = dict(
+    rule="enumeration: all triples (subject, pattern, replacement) of strings over {a,b} (subject length <= 4, others <= 3; thorough 6/4) and over {a,b,c} (3/2), each with every index in [-2,|s|+2] u {i32::MIN, MIN+1, MAX-1, MAX} and 8 length values; "
+         "generation: tapes decoded into a subject of length 0-12 over {a,b,c,0,0x2FFFF}, a pattern that is a substring / a repetition aa.. / independent, a replacement that may contain the pattern, 3 index and 2 length integers biased to -2..2, |s|-2..|s|+2 and i32 extremes. "
+         "Non-trivial = non-empty pattern occurring in the subject, or an index within 1 of 0 or of |s|; distinct = digest of the decoded tuple / by construction.",
+    oracle="R7: SMT-LIB 2.6 definitions written on Vec<u32> with i64 arithmetic (indexof = least n >= i with an occurrence at n for 0 <= i <= |s|; replace = leftmost occurrence, empty pattern at 0; replace_all = left-to-right non-overlapping, identity for the empty pattern); exact equality for all ten functions",
+    assumptions=COMMON_ASSUMPTIONS,
+    quick=dict(enum={"rel": 8, "dbg": 4}, proptest={"rel": (8, 40000), "dbg": (4, 15000)}),
+    thorough=dict(enum={"rel": 16, "dbg": 8}, proptest={"rel": (16, 1500000), "dbg": (8, 300000)}),
+)
+
+PLAN["C08"] = dict(
+    rule="enumeration: every text of length <= 7 (8 thorough) over the symbols \\ u { } 0 2 3 f A g; structured texts prefix.\\u[{]hex^k.terminator.suffix for k <= 7; every string of length <= 6 (7) over the code points \\ u { } 4 1 \" 0x7f 0x2ffff printed and read back; every single code point; "
+         "generation: tapes decoded into token sequences (escape prefixes, hex and non-hex letters, quote, 0, 0x7f, 0x80, 0xffff, 0x10000, 0x2ffff) and into strings of arbitrary code points mixed with spelled-out escapes. "
+         "Non-trivial = text contains \\u, or string contains a backslash or a non-printable character; distinct = digest of (text, string) / by construction.",
+    oracle="R8: scanner written from the SMT-LIB 2.6 grammar (\\ud3d2d1d0 | \\u{d0}..\\u{d4..d0} with value <= 0x2FFFF; anything else copied); parse_smt_literal(t) == R8(t). Printing: enclosed in quotes, body in 0x20..0x7E, every quote doubled, un-doubled body reads back to the original both through parse_smt_literal and through R8",
+    assumptions=COMMON_ASSUMPTIONS + ["texts are restricted to characters <= 0x2FFFF (larger ones belong to C17)"],
+    quick=dict(enum={"rel": 14, "dbg": 2}, proptest={"rel": (8, 40000), "dbg": (4, 15000)}),
+    thorough=dict(enum={"rel": 16, "dbg": 8}, proptest={"rel": (16, 1500000), "dbg": (8, 300000)}),
+)
+
+PLAN["C09"] = dict(
+    rule="enumeration: every integer in [0,0x2FFFF+16] for from_code/to_code/from_int/to_int round trips; every decimal value within 2000 (20000 thorough) of 8 centres around 2^31, 2^32 and their multiples, with leading zeros and with a trailing non-digit; every string over 0-9,a of length <= 5 (6); "
+         "generation: tapes decoded into three strings sharing a prefix (order laws), a digit string (random length <= 25, or clustered around 2^31/2^32/powers of ten, or long runs of 9, with leading zeros), a digit string with one non-digit inserted at a random position, and an i32. The same seeds run in the rel (no overflow checks) and dbg (overflow checks) builds. "
+         "Non-trivial = digit string with value >= 2^31 (also before an inserted non-digit), or two different strings sharing a non-empty prefix; distinct = digest of the decoded tuple / by construction.",
+    oracle="str_lt/str_le = Rust slice order on [u32] plus trichotomy, le = lt or eq, transitivity, prefix => le; str_to_int against a u128 evaluation: all-digit and <= i32::MAX => that value, all-digit and larger => must panic, otherwise -1 without panic; from_int/to_code/from_code/is_digit by definition; to_code(from_code(x)) = x and to_int(from_int(n)) = n",
+    assumptions=COMMON_ASSUMPTIONS + ["'every build profile' = the two profiles a cargo user gets: release-like (opt-level 3, no overflow checks, no debug assertions) and dev/test-like (overflow checks and debug assertions on)"],
+    same_seeds=True,
+    quick=dict(enum={"rel": 8, "dbg": 8}, proptest={"rel": (8, 40000), "dbg": (8, 40000)}, same_seeds=True),
+    thorough=dict(enum={"rel": 16, "dbg": 16}, proptest={"rel": (16, 1000000), "dbg": (16, 1000000)}, same_seeds=True),
+)
+
+PLAN["C17"] = dict(
+    rule="generation: tapes decoded into a Rust string and a char over all scalar values (U+2FFFF, U+30000, U+10FFFF and neighbours over-weighted), a u32 list and a u32 (0x2FFFF, 0x30000, u32::MAX ...), a literal text mixing such characters with escapes, integers, and a small regex program; all public constructors, parse_smt_literal, str_* results on well-formed strings, regex replace through the wrappers and get_string are checked. "
+         "Non-trivial = some input value is above 0x2FFFF; distinct = digest of all decoded inputs.",
+    oracle="is_good() and every element <= 0x2FFFF for every string handed out; integer constructors element-wise x <= 0x2FFFF ? x : 0xFFFD; text constructors exact when all characters are in range (in-range characters kept in order otherwise); parse_smt_literal == R8 on in-range texts; every such string s: ReManager::str(s) does not panic and str_in_re(s, str(s))",
+    assumptions=COMMON_ASSUMPTIONS + ["what an out-of-range character of a text becomes is not prescribed by the property beyond well-formedness"],
+    quick=dict(proptest={"rel": (8, 6000), "dbg": (4, 3000)}),
+    thorough=dict(proptest={"rel": (16, 150000), "dbg": (8, 50000)}),
+)
